@@ -36,7 +36,10 @@ var leanKeywords = map[string]bool{"at": true, "from": true, "end": true, "open"
 // refused so that nothing is captured).
 func (t *translator) ident(id *ast.Ident) string {
 	n := id.Name
-	if n == "fuel" || n == "k_" || n == "r_" || n == "s_" || n == "i_" || isTmpName(n) {
+	if id == t.grandId {
+		return n
+	}
+	if n == "grand_" || n == "rec_" || n == "rand_" || n == "fuel" || n == "k_" || n == "r_" || n == "s_" || n == "i_" || isTmpName(n) {
 		t.fail(id, "identifier %q clashes with a name the translator generates", n)
 	}
 	if leanKeywords[n] {
@@ -179,8 +182,8 @@ func (t *translator) record(ty types.Type) (n *types.Named, isPtr bool) {
 		ty, isPtr = types.Unalias(p.Elem()), true
 	}
 	n, ok := ty.(*types.Named)
-	if !ok || n.Obj().Pkg() == nil || n.Obj().Pkg() == t.pkg {
-		return nil, false
+	if !ok || n.Obj().Pkg() == nil || n.Obj().Pkg() == t.pkg || n.Obj().Pkg().Path() == "math/rand" {
+		return nil, false // (a *rand.Rand is not a record: see isRand)
 	}
 	if _, ok := n.Underlying().(*types.Struct); !ok {
 		return nil, false
@@ -190,6 +193,9 @@ func (t *translator) record(ty types.Type) (n *types.Named, isPtr bool) {
 
 func (t *translator) leanType(ty types.Type, at ast.Node) string {
 	ty = types.Unalias(ty)
+	if isRand(ty) {
+		return "Go.Rand"
+	}
 	if n, isPtr := t.record(ty); n != nil {
 		t.needStruct(n.Origin(), at)
 		s := n.Obj().Name()
@@ -216,6 +222,12 @@ func (t *translator) leanType(ty types.Type, at ast.Node) string {
 			return "Int"
 		case u.Kind() == types.Bool || u.Kind() == types.UntypedBool:
 			return "Bool"
+		case isU64(u):
+			return "UInt64"
+		case isU8(u):
+			return "UInt8"
+		case isString(u):
+			return "Go.Str"
 		}
 	case *types.Slice:
 		return "Array " + paren(t.leanType(u.Elem(), at))
@@ -225,6 +237,11 @@ func (t *translator) leanType(ty types.Type, at ast.Node) string {
 		if sig, ok := u.Underlying().(*types.Signature); ok {
 			return t.leanType(sig, at)
 		}
+		if b, ok := u.Underlying().(*types.Basic); ok { // `type TraversalStrategy int`: its underlying type
+			return t.leanType(b, at)
+		}
+	case *types.Array: // [N]T: a VALUE in Go (assignment copies), so an Array of length N here
+		return "Array " + paren(t.leanType(u.Elem(), at))
 	case *types.Signature:
 		var parts []string
 		for i := 0; i < u.Params().Len(); i++ {
@@ -271,9 +288,19 @@ func (t *translator) zero(ty types.Type, at ast.Node) string {
 			return "0"
 		case types.Bool, types.UntypedBool:
 			return "false"
+		case types.Uint, types.Uint64, types.Uint8:
+			return "0"
+		case types.String:
+			return "([] : Go.Str)"
 		}
 	case *types.Slice:
 		return "#[]"
+	case *types.Array:
+		return fmt.Sprintf("(Array.replicate %d %s)", u.Len(), paren(t.zero(u.Elem(), at)))
+	case *types.Named:
+		if b, ok := u.Underlying().(*types.Basic); ok {
+			return t.zero(b, at)
+		}
 	case *types.TypeParam:
 		return "(default : " + u.Obj().Name() + ")"
 	}
@@ -303,8 +330,71 @@ func typeParamBinders(tps *types.TypeParamList) string {
 	for i := 0; i < tps.Len(); i++ {
 		n := tps.At(i).Obj().Name()
 		s += fmt.Sprintf("{%s : Type} [Inhabited %s] ", n, n)
+		if isOrderedParam(tps.At(i)) {
+			s += fmt.Sprintf("[Go.Ordered %s] ", n)
+		}
 	}
 	return s
+}
+
+// isOrderedParam: a type parameter constrained by constraints.Ordered / cmp.Ordered — its `<` is the class Go.Ordered.
+func isOrderedParam(ty types.Type) bool {
+	tp, ok := types.Unalias(ty).(*types.TypeParam)
+	if !ok {
+		return false
+	}
+	n, ok := types.Unalias(tp.Constraint()).(*types.Named)
+	if !ok || n.Obj().Pkg() == nil || n.Obj().Name() != "Ordered" {
+		return false
+	}
+	p := n.Obj().Pkg().Path()
+	return p == "golang.org/x/exp/constraints" || p == "cmp"
+}
+
+func basicKind(ty types.Type) types.BasicKind {
+	if b, ok := ty.Underlying().(*types.Basic); ok {
+		return b.Kind()
+	}
+	return types.Invalid
+}
+
+// uint, uint64 (uint is 64 bits: the constant bits.UintSize of the type-checked source says so) → UInt64
+func isU64(ty types.Type) bool { k := basicKind(ty); return k == types.Uint || k == types.Uint64 }
+
+// byte, uint8 → UInt8
+func isU8(ty types.Type) bool       { return basicKind(ty) == types.Uint8 }
+func isUnsigned(ty types.Type) bool { return isU64(ty) || isU8(ty) }
+func isString(ty types.Type) bool {
+	k := basicKind(ty)
+	return k == types.String || k == types.UntypedString
+}
+
+// derivable: values of type ty have Repr / DecidableEq instances in the generated file (a generated structure has them
+// only if it has no type parameters, no function-typed fields and all its fields are derivable).
+func (t *translator) derivable(ty types.Type) bool {
+	switch u := types.Unalias(ty).(type) {
+	case *types.Pointer:
+		return t.derivable(u.Elem())
+	case *types.Slice:
+		return t.derivable(u.Elem())
+	case *types.Signature, *types.TypeParam:
+		return false
+	case *types.Named:
+		if _, isFn := u.Underlying().(*types.Signature); isFn {
+			return false
+		}
+		if st, ok := u.Underlying().(*types.Struct); ok {
+			if u.Origin().TypeParams().Len() > 0 {
+				return false
+			}
+			for i := 0; i < st.NumFields(); i++ {
+				if !t.derivable(st.Field(i).Type()) {
+					return false
+				}
+			}
+		}
+	}
+	return true
 }
 
 func (t *translator) emitStruct(n *types.Named) string {
@@ -318,11 +408,14 @@ func (t *translator) emitStruct(n *types.Named) string {
 	where := ""
 	if n.Obj().Pkg() != t.pkg {
 		where = " of package " + n.Obj().Pkg().Name() + " (an immutable record here)"
+		if t.mutRec[n] {
+			where = " of package " + n.Obj().Pkg().Name() + " (a mutable record here: each one is owned by the slice slot it was stored into)"
+		}
 	}
 	fmt.Fprintf(&b, "/-- `type %s struct`%s -/\n%s where\n", n.Obj().Name(), where, head)
 	for i := 0; i < st.NumFields(); i++ {
 		ft := t.leanType(st.Field(i).Type(), nil)
-		if strings.Contains(ft, "→") {
+		if strings.Contains(ft, "→") || !t.derivable(st.Field(i).Type()) {
 			plain = false
 		}
 		fmt.Fprintf(&b, "  %s : %s\n", varName(st.Field(i)), ft)
